@@ -137,7 +137,7 @@ struct qs_agent {
 				FRG_ASSERT(_acked_qs_counter + 1 == ctr);
 
 				// Now ack the QS.
-				if(_dom->_agents_to_ack.fetch_sub(1, std::memory_order_relaxed) == 1) {
+				if(_dom->_agents_to_ack.fetch_sub(1, std::memory_order_acq_rel) == 1) {
 					_dom->_agents_to_ack.store(_dom->_num_agents, std::memory_order_relaxed);
 					_dom->_qs_counter.store(ctr + 1, std::memory_order_release);
 				}
